@@ -317,7 +317,7 @@ def do_probe(sim, rec):
         except Exception as ex:  # noqa
             exc = ex
     post, _ = snapshot(act.sut)
-    w.logev("probe_frozen", rec["uid"], rec["actor"], target, canon([args, kwargs]) if cp not in args else "net",
+    w.logev("probe_frozen", rec["uid"], rec["actor"], target, canon([args, kwargs]) if not any(x is cp for x in args) else "net",
             "ok" if exc is None else type(exc).__name__)
     fake = {"op": "probe:" + name, "uid": rec["uid"]}
     if E.structure_of(pre) != E.structure_of(post):
